@@ -66,7 +66,7 @@ def cases(draw):
         mesh = draw(gen.delaunay_mesh(n=(3, 3)))
     else:
         mesh = draw(gen.structured_mesh(n=(3, 3)))
-    shift = draw(st.floats(0.0, 3.0))
+    shift = draw(gen.floats(0.0, 3.0))
     return {'mesh': mesh, 'order': order, 'bubble': bubble, 'qdeg': qdeg, 'q1d': q1d, 'axisym': axisym, 'rshift': shift}
 
 
